@@ -325,6 +325,8 @@ class Sim:
         elif a[0] == "ptrset":
             root, v = self.handle(a[1]), self.handle(a[3], True)
             r["ret"] = self._ptrset(root, unhex(a[2]), v, r)
+        elif a[0] == "hash":
+            pass      # json_global_set_string_hash: which hash function new tables use; no bearing on ownership
         elif a[0] == "use":
             i = self.handle(a[1])
             r["dump"] = self.dump(i)
@@ -1060,9 +1062,85 @@ def small_scope(tier):
     return out
 
 
+# -------------------------------------------------------------------- deterministic probe chains
+# The default string hash is seeded per process, so whether two generated member names collide, and
+# where, differs from run to run.  json_global_set_string_hash(JSON_C_STR_HASH_PERLLIKE) selects
+# lh_perllike_str_hash (h = 1; h = h * 33 + c in 32-bit unsigned arithmetic; slot = h % size), which has
+# no seed: these fixed cases build probe chains at chosen slots — in particular at the LAST slot, so that
+# the chain wraps to slot 0 — in a fresh 16-slot table and in one grown to 32 slots, delete a link of
+# the chain and then replace / delete / look up (patch replace needs the member to exist) the members
+# behind it.  A member that can no longer be found is inserted a second time or never released.
+def perl_hash(key):
+    h = 1
+    for c in key:
+        h = (h * 33 + c) & 0xffffffff
+    return h
+
+
+def _keys_at(slot, size, n, avoid=()):
+    out, i = [], 0
+    while len(out) < n:
+        k = ("p%d" % i).encode()
+        i += 1
+        if perl_hash(k) % size == slot and k not in avoid:
+            out.append(k)
+    return out
+
+
+def hash_chains():
+    out = []
+    for size in (16, 32):
+        for slot in (size - 1, 0, 7):
+            for nkeys in (2, 3):
+                keys = _keys_at(slot, size, nkeys)
+                chain_slots = {(slot + j) % size for j in range(nkeys + 1)}
+                fill = []
+                if size == 32:     # eleven members elsewhere: the twelfth insert grows the table to 32 slots
+                    i = 0
+                    while len(fill) < 11:
+                        k = ("f%d" % i).encode()
+                        i += 1
+                        if perl_hash(k) % 32 not in chain_slots and (perl_hash(k) % 32 + 1) % 32 not in chain_slots:
+                            fill.append(k)
+                for victim in range(nkeys):            # which link of the chain is deleted first
+                    for target in range(nkeys):        # which member is then touched
+                        if target == victim:
+                            continue
+                        for action in ("replace", "delete", "patch-replace", "addx-replace"):
+                            g = Gen(None)
+                            g.do("hash 1")
+                            g.do("h1=newobj")
+                            for k in fill:
+                                g.do("add h1 %s n" % k.hex())
+                            vals = []
+                            for k in keys:
+                                v = g.sim.nxt
+                                g.do("h%d=newint 7" % v)
+                                g.do("add h1 %s h%d" % (k.hex(), v))
+                                vals.append(v)
+                            g.do("del h1 %s" % keys[victim].hex())
+                            t = keys[target].hex()
+                            if action == "replace":
+                                v = g.sim.nxt
+                                g.do("h%d=newstr 6162" % v)
+                                g.do("add h1 %s h%d" % (t, v))
+                            elif action == "addx-replace":
+                                g.do("addx h1 %s n 2" % t)
+                            elif action == "delete":
+                                g.do("del h1 %s" % t)
+                            else:
+                                g.do("prepl h1 %s n" % (b"/" + keys[target]).hex())
+                            g.do("use h1")
+                            g.do("put h1")
+                            g.do("hash 0")
+                            g.ops += close_ops(g.sim)
+                            out.append(("heap " + ";".join(g.ops), {"kind": "hash-chain", "kinds": ["hash-chain"]}))
+    return out
+
+
 def gen(rng, tier):
     n = 2000 if tier == "quick" else 30000
-    out = small_scope(tier)
+    out = hash_chains() + small_scope(tier)
     for ci in range(n):
         length = rng.choice([5, 8, 12, 20, 30, 50, 80, 120, 200]) if rng.random() < 0.8 else rng.randint(5, 200)
         out.append(gen_one(rng, length))
@@ -1166,7 +1244,7 @@ def shrink(ck, line, cls):
 
 
 def search(rng, broken_lines):
-    return [c for c in gen(rng, "quick") if c[1]["kind"] != "small-scope"][:1500]
+    return [c for c in gen(rng, "quick") if c[1]["kind"] not in ("small-scope", "hash-chain")][:1500]
 
 
 LEVEL_TEXT = ("Machine-checked invariant: for every admissible history of constructor / get / put / object add-replace-delete / array "
